@@ -381,8 +381,8 @@ def plan(tier: str) -> list[dict]:
             + [{"mode": "enum", "cases": [{"kind": "lattice", "L": 2, "top": t}], "cost": 20} for t in (-2, -1, 0, 1, 2)]
             + [{"mode": "enum", "cases": [{"kind": "lattice4", "values": [0, 1]}, {"kind": "lattice4", "values": [-1, 0]}], "cost": 6}]
             + [{"mode": "enum", "cases": [{"kind": "lattice4", "values": [-1, 0, 1], "fixed": {"15": t, "14": u}}], "cost": 12} for t in (-1, 0, 1) for u in (-1, 0, 1)]
-            + [{"mode": "games", "n": 4, "examples": 2500, "cost": 6} for _ in range(2)]
-            + [{"mode": "games", "n": 5, "examples": 600, "cost": 6} for _ in range(2)]
+            + [{"mode": "games", "n": 4, "examples": 15000, "cost": 6} for _ in range(3)]
+            + [{"mode": "games", "n": 5, "examples": 4000, "cost": 6} for _ in range(3)]
             + [{"mode": "tol", "n": 4, "examples": 800, "cost": 3}, {"mode": "tol", "n": 5, "examples": 300, "cost": 3}])
 
 
